@@ -145,7 +145,8 @@ fn emu_mem_diff(emu: &EmuPost, hw_mem: &[Vec<u8>]) -> Option<String> {
                     ));
                 }
             }
-        } else if found.is_none() {
+        } else if found.is_none() && !data.is_empty() {
+            // (empty areas are the mirror's own, see build_mirror)
             found = Some(format!("unexpected area at {:#x}", start));
         }
     });
